@@ -78,6 +78,18 @@ CHECKS = {
         'shared between obsolete and current terms, clashing ids, both ontology kinds, all query forms, identity of the returned object.',
         'Trusted: Coq kernel + vm_compute; dict modelled as association list with in-place overwrite; object identity rendered as list position.',
         '§4 C06'),
+    'C09': (
+        'Coq proof (integer counts = number of present annotations at or below a term, one per annotation; monotone, order/excluded-independent; result keys incl. pseudocount; -log facts over R) + per-run correspondence (model counts evaluated in Coq, -log recomputed by the harness)',
+        'Machine-checked theorems for every ontology graph built from an acyclic edge list, every corpus whose annotation ids are nodes, with or without a '
+        'module: the count c(t) the result is computed from equals the number of present (module) annotations to t or to a descendant of t - exactly one '
+        'increment per annotation however many paths lead to t; c never increases towards descendants; excluded annotations and any permutation of the '
+        'items change no count; without pseudocounts a term is a key iff c(t) > 0, with pseudocounts every corpus term is a key with max(c,1); over the '
+        'reals, for base > 1, -log_base(c/pop) is 0 at the root, non-negative, and antitone in c. PARTIAL (runtime arithmetic): the binary64 evaluation of '
+        'math.log and / is not modelled - the correspondence recomputes -math.log(c/pop[, base]) from the model counts and compares every term IC, and '
+        'asserts root = 0, IC >= 0 and monotonicity on the implementation floats.',
+        'Trusted: as C01; Counter/set modelled as multiset/list; stub containers through the public ABCs. C09_ic_real depends on the stdlib axioms '
+        'ClassicalDedekindReals.sig_forall_dec, sig_not_dec, FunctionalExtensionality.functional_extensionality_dep, Classical_Prop.classic (reals).',
+        '§4 C09'),
     'C10': (
         'Coq proof (loop invariant of the pair loop over an abstract MICA function; MICA = declarative max over common ancestors via the proved helper/graph models; branch coverage) + per-run vm_compute correspondence with src/hpotk/algorithm/similarity/_resnik.py',
         'Machine-checked theorem for every ontology graph built from an acyclic edge list that contains HP:0000118 and EVERY information-content map '
